@@ -15,6 +15,7 @@ fn main() {
         "prim" => vharness::prim::replay(&args[2], &mut out),
         "lexer" => vharness::lexer::replay(&args[2], &mut out),
         "der" => vharness::der::replay(&args[2], &mut out),
+        "names" => vharness::names::replay(&args[2], &mut out),
         "relayout" => vharness::lexer::relayout(&args[2], &mut out),
         "frontfault" => {
             let kv: Kv = args[4..].iter().filter_map(|a| a.split_once('=').map(|(k, v)| (k.to_string(), v.to_string()))).collect();
